@@ -175,7 +175,16 @@ def derived_atom_lists(fn: ast.AST) -> dict:
             return True
         if isinstance(e, ast.Name) and (e.id in derived or e.id == "residue_atoms"):
             return True
-        if isinstance(e, (ast.ListComp, ast.GeneratorExp)) and len(e.generators) == 1 and isinstance(e.generators[0].target, ast.Name) and isinstance(e.elt, ast.Name) and e.elt.id == e.generators[0].target.id:
+        if (
+            isinstance(e, (ast.ListComp, ast.GeneratorExp))
+            and len(e.generators) == 1
+            and isinstance(e.generators[0].target, ast.Name)
+            and (
+                (isinstance(e.elt, ast.Name) and e.elt.id == e.generators[0].target.id)
+                # one value per atom (its coordinates, its name ...): still one member per atom, in file order
+                or (isinstance(e.elt, ast.Attribute) and isinstance(e.elt.value, ast.Name) and e.elt.value.id == e.generators[0].target.id and e.elt.attr not in CONSTANT_FIELDS)
+            )
+        ):
             t = e.generators[0].target.id
             # a filter that pins one name (`atom.name == X`) leaves the atoms of that name: taking the first is find_atom's own rule
             if any(astq.match(c, f"{t}.name == X_") is not None or astq.match(c, f"X_ == {t}.name") is not None for c in e.generators[0].ifs):
